@@ -2115,8 +2115,20 @@ d_case(dctx *D, int cs, const wcase *w)
 	    "Sec-WebSocket-Accept: %s\r\n"
 	    "Sec-WebSocket-Protocol: pair.sp.nanomsg.org\r\n\r\n",
 	    first, acc);
-	rc_write_cut(&c, (uint8_t *) resp, (size_t) rn,
-	    w->kind == WK_RESPCUT ? w->aux : -1, -1);
+	int glued = w->kind == WK_RESPCUT && w->aux == -2;
+	if (glued) {
+		// 101 response and the first frames arrive in one segment
+		size_t   wn0 = enc_case(w, cs, &wire);
+		uint8_t *all = malloc((size_t) rn + wn0);
+		memcpy(all, resp, (size_t) rn);
+		memcpy(all + rn, wire, wn0);
+		rc_write_cut(&c, all, (size_t) rn + wn0, -1, -1);
+		free(all);
+		free(wire);
+		wire = NULL;
+	} else
+		rc_write_cut(&c, (uint8_t *) resp, (size_t) rn,
+		    w->kind == WK_RESPCUT ? w->aux : -1, -1);
 	vs_case();
 	vs_nontrivial();
 	refout R;
@@ -2165,8 +2177,10 @@ d_case(dctx *D, int cs, const wcase *w)
 	}
 	// WK_SEQ / WK_RESPCUT / WK_RESPMUT: server -> client frames
 	ref_accept(w, 1u << 20, 1u << 20, 0, &R);
-	size_t wn = enc_case(w, cs, &wire);
-	rc_write_cut(&c, wire, wn, w->cut1, w->cut2);
+	if (!glued) {
+		size_t wn = enc_case(w, cs, &wire);
+		rc_write_cut(&c, wire, wn, w->cut1, w->cut2);
+	}
 	drain_all(D->s, &d);
 	rc_pump(&c);
 	rx_process(&c, &st, 1);
@@ -2187,9 +2201,10 @@ d_case(dctx *D, int cs, const wcase *w)
 		R.must = R.nmsg; // nothing else wrong with it
 		if (d.n != R.nmsg) {
 			CFAIL("C16:http:segmentation",
-			    "case %d: 101 response cut at offset %d: %d message(s) "
-			    "delivered afterwards instead of %d",
-			    cs, w->aux, d.n, R.nmsg);
+			    "case %d: 101 response %s %d: %d message(s) delivered "
+			    "afterwards instead of %d",
+			    cs, glued ? "glued to the first frames, cut" : "cut at offset",
+			    w->aux, d.n, R.nmsg);
 		}
 	}
 	if (check_deliveries(w, &R, &d, cs, w->cut1 >= 0) != 0)
@@ -2341,13 +2356,15 @@ static hcase *HC;
 static int    NHC, HPER;
 static hcase *HM;
 static int    NHM;
+static hcase *HP; // pipelined pair
+static int    NHP;
 
 static const char *HREQ[3] = {
 	"GET /c16 HTTP/1.1\r\nHost: 127.0.0.1\r\nAccept: */*\r\n\r\n",
 	"POST /c16 HTTP/1.1\r\nHost: 127.0.0.1\r\nContent-Length: 5\r\n\r\nhello",
 	// two pipelined requests on one persistent connection
 	"POST /c16 HTTP/1.1\r\nHost: 127.0.0.1\r\nContent-Length: 5\r\n\r\nhello"
-	"GET /c16/b HTTP/1.0\r\nHost: 127.0.0.1\r\n\r\n",
+	"GET /c16/b HTTP/1.1\r\nHost: 127.0.0.1\r\n\r\n",
 };
 static const char *HREQN[3] = { "GET", "POST", "POST+GET pipelined" };
 
@@ -2412,7 +2429,6 @@ http_read_response(rconn *c, int cs, int ms, int expect_ok, size_t *bodylen,
 }
 
 static int H_cls[4];
-static char H_dbg[400];
 
 static void
 h_case(int port, int cs, const hcase *h)
@@ -2468,15 +2484,8 @@ h_case(int port, int cs, const hcase *h)
 		{ { "POST", "/c16", 5 }, { "GET", "/c16/b", 0 } } };
 	int nreq = h->req == 2 ? 2 : 1;
 	for (int q = 0; q < nreq; q++) {
-		if (q > 0) {
-			rc_pump(&c);
-			vs_log("raw answer %d: %s", q, showb(c.rb, c.rl < 300 ? c.rl : 300));
+		if (q > 0)
 			st = http_read_response(&c, cs, 100, 1, &bl, why, sizeof(why));
-		}
-		if (HS.calls <= q)
-			snprintf(H_dbg + strlen(H_dbg), sizeof(H_dbg) - strlen(H_dbg), "%d:%d,", h->req, h->cut1);
-		if (HS.calls <= q)
-			goto done;
 		if (HS.calls <= q)
 			CFAIL(sgn,
 			    "%s cut at %d,%d: the handler ran %d time(s) instead of %d "
@@ -2531,7 +2540,7 @@ done:
 static void
 run_http(void *arg)
 {
-	int mode = (int) (intptr_t) arg; // 0 segmentation, 1 mutations
+	int mode = (int) (intptr_t) arg; // 0 segmentation, 1 mutations, 2 pipelined
 	g_sfx           = "";
 	vs_tcp_grace_us = 1500;
 	vh_init(0);
@@ -2548,9 +2557,9 @@ run_http(void *arg)
 	VH_OK(nng_http_server_start(srv));
 	VH_OK(nng_http_server_get_port(srv, &port));
 	vs_settle();
-	hcase *tab = mode ? HM : HC;
-	int    n   = mode ? NHM : NHC;
-	int    per = mode ? 1 : HPER;
+	hcase *tab = mode == 1 ? HM : mode == 2 ? HP : HC;
+	int    n   = mode == 1 ? NHM : mode == 2 ? NHP : NHC;
+	int    per = mode == 1 ? 1 : HPER;
 	int    nb  = (n + per - 1) / per;
 	int    batch = vs_choose(VK_ENV, nb);
 	for (int k = 0; k < per; k++) {
@@ -2570,7 +2579,8 @@ run_http(void *arg)
 		if (g_nfail == nf + 1 && nf == 0)
 			snprintf(g_sig, sizeof(g_sig), "C16:http:control");
 	}
-	vs_outcome("F %s", H_dbg);
+	vs_outcome("http%d u%d l%d h%d b%d x%d", mode, H_cls[0], H_cls[1], H_cls[2],
+	    H_cls[3], g_nfail);
 	nng_http_server_stop(srv);
 	nng_http_server_release(srv);
 	nng_url_free(u);
@@ -3278,6 +3288,16 @@ build_resp_cases(ctab *t, int T)
 		w.aux = (int16_t) c;
 		ct_add(t, &w);
 	}
+	// response and frames glued into one segment: a ping + 2-fragment message
+	w.aux  = -2;
+	ct_add(t, &w);
+	w.nf   = 3;
+	w.f[0] = FD(OP_PING, 1, 4);
+	w.f[1] = FD(OP_BIN, 0, 126);
+	w.f[2] = FD(OP_CONT, 1, 1);
+	ct_add(t, &w);
+	w.nf   = 1;
+	w.f[0] = FD(OP_BIN, 1, 5);
 	w.kind = WK_RESPMUT;
 	for (int m = 0; m < NRESP_MUT; m++) {
 		w.aux = (int16_t) m;
@@ -3289,7 +3309,14 @@ static void
 build_http_cases(int T)
 {
 	HC = calloc(12000, sizeof(hcase));
-	for (int r = 0; r < 3; r++) {
+	HP = calloc(200, sizeof(hcase));
+	{
+		int n = (int) strlen(HREQ[2]);
+		HP[NHP++] = (hcase){ 2, -1, -1, NULL, "uncut", ":pipelined" };
+		for (int c = 1; c < n; c++)
+			HP[NHP++] = (hcase){ 2, c, -1, NULL, "1cut", ":pipelined" };
+	}
+	for (int r = 0; r < 2; r++) {
 		int n = (int) strlen(HREQ[r]);
 		HC[NHC++] = (hcase){ r, -1, -1, NULL, "uncut", "" };
 		for (int c = 1; c < n; c++)
@@ -3448,6 +3475,7 @@ main(int argc, char **argv)
 	build_http_cases(T);
 	explore("http-segmentation", run_http, (void *) 0, 20);
 	explore("http-request-line", run_http, (void *) 1, 15);
+	explore("http-pipelined", run_http, (void *) 2, 15);
 	// ---- (d) ----
 	build_httpc_cases(T);
 	explore("httpc-transact", run_httpc, NULL, 20);
@@ -3488,10 +3516,12 @@ main(int argc, char **argv)
 	           : "",
 	    T ? ",1" : "", T ? "" : "third ", NRESP_MUT);
 	vx_note("http-server",
-	    "GET, POST(5-byte body) and POST+GET pipelined with 1 cut at every "
-	    "offset%s (%d cases); %d request-line mutations against an any-method "
-	    "tree handler, one per execution",
-	    T ? " and 2 cuts (first every offset, second every third)" : "", NHC, NHM);
+	    "GET and POST(5-byte body) with 1 cut at every offset%s (%d cases); "
+	    "POST+GET pipelined on one connection with 1 cut at every offset (%d "
+	    "cases); %d request-line mutations against an any-method tree handler, "
+	    "one per execution",
+	    T ? " and 2 cuts (first every offset, second every third)" : "", NHC, NHP,
+	    NHM);
 	vx_note("http-client",
 	    "nng_http_transact against a raw server: Content-Length and chunked "
 	    "responses with 1 cut at every offset%s, 8 malformed status lines, 15 "
